@@ -184,3 +184,55 @@ def antimonotone_domain_sigs(stms, prefix):
                 if b.literal.sign == Sign.Negation:
                     out |= all_sigs(b.literal)
     return out
+
+
+def underivable_sigs(stms, ins):
+    """predicates that have defining rules but can never be derived from the inputs (e.g. `foo(E) :- edge(E,F), foo(F).`
+    without a base case): rules over them would be vacuous for every instance, so the corpus driver declares them inputs
+    as well (ngo's own auto-detection reports self-defining predicates as inputs too)"""
+    rules = [s for s in stms if s.ast_type == ASTType.Rule]
+    derivable = set(ins)
+    changed = True
+    while changed:
+        changed = False
+        for r in rules:
+            heads = head_atom_sigs(r)
+            if heads <= derivable:
+                continue
+            need = set()
+            for b in r.body:
+                if b.ast_type == ASTType.Literal and b.sign == Sign.NoSign and b.atom.ast_type == ASTType.SymbolicAtom:
+                    need.add(sig_of_atom(b.atom))
+            if need <= derivable:
+                derivable |= heads
+                changed = True
+    dead = defined_sigs(stms) - derivable
+    # opening a recursive predicate whose head computes a new term (seq(T,S+1) :- .., foo(T,S).) makes grounding diverge
+    for r in rules:
+        if r.head.ast_type == ASTType.Literal and _has_arith(r.head):
+            scc_like = head_atom_sigs(r)
+            if scc_like & dead:
+                return set()
+    return dead
+
+
+def infsup_guard_sigs(stms):
+    """for rules `h(..,#inf|#sup) :- q(X); not c(..,X); ...` (the rule minmax_chains emits for the empty aggregate, whatever
+    later passes renamed its predicates to): the signatures q of the positive body literals that share with the negative
+    literal a variable not occurring in the head -- the least/greatest element of the value domain"""
+    out = set()
+    for s in stms:
+        if s.ast_type != ASTType.Rule or s.head.ast_type != ASTType.Literal or s.head.atom.ast_type != ASTType.SymbolicAtom:
+            continue
+        infsup = [n for n in walk(s.head) if n.ast_type == ASTType.SymbolicTerm and str(n.symbol) in ("#inf", "#sup")]
+        if not infsup:
+            continue
+        hv = {n.name for n in walk(s.head) if n.ast_type == ASTType.Variable}
+        negs = [b for b in s.body if b.ast_type == ASTType.Literal and b.sign == Sign.Negation and b.atom.ast_type == ASTType.SymbolicAtom]
+        for ng in negs:
+            nv = {n.name for n in walk(ng) if n.ast_type == ASTType.Variable} - hv
+            for b in s.body:
+                if b.ast_type == ASTType.Literal and b.sign == Sign.NoSign and b.atom.ast_type == ASTType.SymbolicAtom:
+                    if nv & {n.name for n in walk(b) if n.ast_type == ASTType.Variable}:
+                        out.add(sig_of_atom(b.atom))
+    return out
